@@ -910,16 +910,25 @@ func runAuth(args []string) error {
 							return
 						}
 						hosts := []string{"evil.example.net", ""}
+						var xfhs []string
 						paths := []string{}
 						for _, i := range c.ingresses {
 							hosts = append(hosts, i[1])
 							paths = append(paths, i[2]+"/oauth2/login")
+							if i[2] != "" {
+								// X-Forwarded-Host values that are NOT a configured host but contain one: host + the ingress path, ...
+								xfhs = append(xfhs, i[1]+i[2], i[1]+i[2]+"/oauth2", i[1]+"/")
+							}
 						}
+						xfhs = append(xfhs, "x."+c.ingresses[0][1], strings.ToUpper(c.ingresses[0][1]), c.ingresses[0][1]+".", c.ingresses[0][1]+", evil.example.net")
 						for k := 0; k < nper; k++ {
 							host := hosts[rng.Intn(len(hosts))]
 							xfh := ""
 							if rng.Intn(3) == 0 {
 								xfh = hosts[rng.Intn(len(hosts))]
+								if rng.Intn(3) == 0 {
+									xfh = xfhs[rng.Intn(len(xfhs))]
+								}
 							}
 							path := paths[rng.Intn(len(paths))]
 							q := url.Values{}
